@@ -28,7 +28,8 @@ REQUIRED = ["no-force attempts refused", "force imports compared with solitary i
             "attempts through an open connection to the existing database", "databases that already hold derived introns",
             "read sequences on a handle holding an uncommitted failed write", "databases whose stored dialect is null",
             "read sequences on a handle that committed a delete, an update and a hand-made relation before",
-            "generators left suspended after their first item"]
+            "generators left suspended after their first item", "attempts with the new data given as a URL",
+            "attempts after set_pragmas() on a handle to another database", "journal mode and side files compared after a refused import"]
 ASSUMPTIONS = [
     "'content untouched' is judged on the independent content dump (byte identity of the file is recorded as a monitor, not demanded)",
     "exceptions raised by a read-style call (e.g. bed12 on non-spanning blocks) are not this property's concern; the call still must not write",
@@ -43,6 +44,13 @@ METHODS = ["getitem", "all_features", "features_of_type", "children", "parents",
 def setup(ctx):
     contracts.install_all()
     sqltrace.install()
+
+
+def file_state(path):
+    side = sorted(sfx for sfx in ("-wal", "-shm", "-journal") if os.path.exists(path + sfx))
+    with open(path, "rb") as fh:
+        head = fh.read(20)
+    return {"side_files": side, "format_versions": [head[18], head[19]] if len(head) >= 20 else None}
 
 
 def sha(path):
@@ -107,7 +115,21 @@ def pair(ctx, case):
                     os.replace(crashed + suf, dbfn + suf)
             if os.path.exists(dbfn + "-wal") and os.path.getsize(dbfn + "-wal") > 0:
                 ctx.mon("old databases with un-checkpointed WAL frames")
+        if case.get("pragmas_history"):
+            # earlier in this process a handle on ANOTHER database followed the documented recipe db.set_pragmas({...})
+            other_db = ctx.tmp(".other.db")
+            try:
+                gffutils.create_db("chr1\ts\tgene\t1\t9\t.\t+\t.\tID=elsewhere\n", other_db, from_string=True).conn.close()
+                h = gffutils.FeatureDB(other_db)
+                h.set_pragmas({"journal_mode": "WAL"} if case["pragmas_history"] == "wal" else {"synchronous": "FULL", "cache_size": 50})
+                h.conn.close()
+                ctx.mon("attempts after set_pragmas() on a handle to another database")
+            finally:
+                for suf in ("", "-wal", "-shm"):
+                    if os.path.exists(other_db + suf):
+                        os.unlink(other_db + suf)
         before, h0 = dbdump.dump(dbfn), sha(dbfn)
+        state0 = file_state(dbfn)
         if case.get("locked"):
             # another connection holds the exclusive lock while the import is attempted (takes sqlite3's busy timeout)
             locker = sqltrace.ORIG_CONNECT(dbfn, timeout=0.1)
@@ -123,7 +145,19 @@ def pair(ctx, case):
                 # the documented alternative to a path: an open sqlite3 connection (here: to the existing database)
                 target = sqltrace.ORIG_CONNECT(dbfn)
                 ctx.mon("attempts through an open connection to the existing database")
-            db = gffutils.create_db(new_text, target, from_string=True, **kw)
+            new_input = case.get("new_input", "string")
+            if new_input == "string":
+                db = gffutils.create_db(new_text, target, from_string=True, **kw)
+            else:
+                newp = ctx.tmp(".new.gff")
+                with open(newp, "w", encoding="utf-8") as fh:
+                    fh.write(new_text)
+                if new_input == "url":
+                    import pathlib
+                    ctx.mon("attempts with the new data given as a URL")
+                    db = gffutils.create_db(pathlib.Path(newp).as_uri(), target, **kw)
+                else:
+                    db = gffutils.create_db(newp, target, **kw)
             db.conn.close()
         except Exception as ex:
             raised = ex
@@ -147,6 +181,12 @@ def pair(ctx, case):
             ctx.violation(case, {"why": "a refused create_db removed the existing database file"})
             return
         after = dbdump.dump(dbfn)
+        if not case.get("old_in_wal_mode") and not case.get("target_connection"):
+            ctx.mon("journal mode and side files compared after a refused import")
+            if file_state(dbfn) != state0:
+                ctx.violation(case, {"why": "a refused create_db changed the existing file's journal mode / left side files next to it",
+                                     "before": state0, "after": file_state(dbfn)})
+                return
         ctx.mon("no-force attempts refused")
         ctx.mon("file bytes identical after refused import" if sha(dbfn) == h0 else "file bytes changed after refused import (content equal)")
         d = dbdump.diff(before, after)
@@ -417,7 +457,8 @@ def run(ctx):
                 "old_fmt": rng.choice(["gff3", "gtf"]), "new_fmt": rng.choice(["gff3", "gtf"]),
                 "disjoint": rng.random() < 0.5, "force": rng.random() < 0.7, "force_kw": rng.choice(["absent", "False"]),
                 "old_without_stats": rng.random() < 0.3, "old_in_wal_mode": rng.random() < 0.15,
-                "target_connection": rng.random() < 0.12}
+                "target_connection": rng.random() < 0.12, "new_input": rng.choice(["string", "string", "path", "url"]),
+                "pragmas_history": rng.choice([None, None, None, "wal", "other"])}
         execute(ctx, case)
         ctx.case(("pair", case), case["disjoint"], sample=case, cls="pair force=%s" % case["force"])
     # a database that another connection holds locked (each attempt waits for sqlite3's busy timeout, so only a few)
